@@ -173,7 +173,7 @@ func genThemedLibJob(r *Rand, k int, allowLoad bool, theme string) LibJob {
 	}
 	j := LibJob{ErrAt: -1}
 	j.API = Pick(r, []string{"stream", "stream", "stream", "stream", "all", "all", "string", "stringall", "stream"})
-	j.InFmt = Pick(r, []string{"yaml", "yaml", "yaml", "yaml", "yaml", "json", "json", "props", "csv", "xml", "toml", "lua"})
+	j.InFmt = Pick(r, []string{"yaml", "yaml", "yaml", "yaml", "yaml", "json", "json", "props", "csv", "xml", "toml", "lua", "base64", "uri", "base64-reg"})
 	j.OutFmt = Pick(r, []string{"yaml", "yaml", "yaml", "json", "json0", "json0", "props", "xml", "xml", "lua", "yaml-reg", "json-reg", "lua-prefix", "shell"})
 	if r.Chance(1, 6) {
 		// yaml decoder without header pre-processing, sometimes on a comment-only input
@@ -193,6 +193,9 @@ func genThemedLibJob(r *Rand, k int, allowLoad bool, theme string) LibJob {
 		return j
 	}
 	j.Input = Bytes(genLibInput(r.Fork("in"), j.InFmt, k))
+	if (strings.HasPrefix(j.InFmt, "base64") || j.InFmt == "uri" || j.InFmt == "props" || j.InFmt == "toml") && r.Chance(1, 4) {
+		j.Input = Bytes("") // nothing to decode this time
+	}
 	j.DecSlot = r.Intn(2)
 	j.EncSlot = r.Intn(2)
 	if j.InFmt == "yaml-nopre" {
@@ -215,7 +218,7 @@ func genThemedLibJob(r *Rand, k int, allowLoad bool, theme string) LibJob {
 		e := GenExprWhere(r.Fork("expr"), func(e Expr) bool { return !strings.Contains(e.Family, "splitdoc") })
 		j.Expr = e.Combined()
 	} else {
-		fi := FormatByName(j.InFmt)
+		fi := FormatByName(strings.TrimSuffix(j.InFmt, "-reg"))
 		j.Expr = Pick(r, []string{".", fi.IDPath, "[" + fi.IDPath + "]", "keys", "..", "[.. | select(kind == \"scalar\")] | sort", "to_entries", "sort_keys(..)"})
 	}
 	switch r.Intn(14) {
